@@ -342,6 +342,8 @@ def gen(ctx):
                 o["align_origin"] = True
             elif r < 0.7:
                 o["sync"] = True
+            elif r < 0.8:     # the only Umeyama option the parser allows together with --align_origin
+                o["correct_scale"], o["align_origin"] = True, True
             if (o.get("align") or o.get("correct_scale")) and rng.random() < 0.3:
                 o["n_to_align"] = 5
         if rng.random() < 0.55:
@@ -352,12 +354,12 @@ def gen(ctx):
                 A[:3, :3] *= float(rng.choice([0.5, 2.0, 3.0]))
             right = bool(rng.random() < 0.5)
             o["transform"] = {"A": H(A), "file": str(rng.choice(["npy", "txt", "json"])), "right": right,
-                              "invert": bool(rng.random() < 0.5), "propagate": bool(right and rng.random() < 0.4 and abs(np.linalg.det(A[:3, :3]) - 1) < 1e-9)}
+                              "invert": bool(rng.random() < 0.5), "propagate": bool(right and rng.random() < 0.5)}
         if rng.random() < 0.35:
             o["plane"] = str(rng.choice(["xy", "xz", "yz"]))
         if o.get("merge") and (o.get("align") or o.get("correct_scale")) and o.get("n_to_align"):
             del o["n_to_align"]
-        cases.append({"kind": "traj", "fmt": fmt, "trajs": trajs, "opts": o, "export": "kitti" if (fmt == "kitti" or i % 5 == 0) else "tum"})
+        cases.append({"kind": "traj", "fmt": fmt, "trajs": trajs, "opts": o, "export": "kitti" if (fmt == "kitti" or i % 3 == 0) else "tum"})
     # without processing options the export equals the input
     for fmt in ("tum", "kitti", "euroc"):
         ps = mk_poses(rng, 9, 50.0, 4.5e5)
